@@ -90,6 +90,17 @@ class SMap(Sym):
         return 'SMap(size=%s)' % (self.size,)
 
 
+class SSet(SMap):
+    """set model: an SMap whose values are not used (A-bi-set: add/discard/copy/in/bool)."""
+    is_set = True
+
+    def __init__(self, dom, size, ksort):
+        SMap.__init__(self, dom, z3.K(ksort, z3.BoolVal(True)), size, ksort, z3.BoolSort())
+
+    def __repr__(self):
+        return 'SSet(size=%s)' % (self.size,)
+
+
 class LazyDict(dict):
     """`{}` in the interpreted program: a concrete dict until a symbolic key is stored into it while empty;
     from then on it is the symbolic map `sym` (same Python object, so aliases see the change)."""
@@ -216,7 +227,8 @@ EXC_BASES = {
     'ZincParseException': 'ValueError',
     'ParseException': 'Exception', 'pp.ParseException': 'Exception',
     'iso8601.ParseError': 'ValueError', 'binascii.Error': 'ValueError', 'json.JSONDecodeError': 'ValueError',
-    'pytz.AmbiguousTimeError': 'Exception', 'pytz.NonExistentTimeError': 'Exception',
+    'pytz.InvalidTimeError': 'Exception',
+    'pytz.AmbiguousTimeError': 'pytz.InvalidTimeError', 'pytz.NonExistentTimeError': 'pytz.InvalidTimeError',
     'pytz.UnknownTimeZoneError': 'KeyError',
 }
 
